@@ -529,7 +529,7 @@ fn judge_history(rep: &Reporter, seq: &[(HOp, u8)], evals: &AtomicU64) {
 }
 
 pub fn run(tier: Tier) -> i32 {
-    let rep = Reporter::new("C02", tier);
+    let rep = std::sync::Arc::new(Reporter::new("C02", tier));
     let evals = AtomicU64::new(0);
     let reqs = requests(tier);
     let cls = ctl_lists();
@@ -604,13 +604,39 @@ pub fn run(tier: Tier) -> i32 {
             judge_history(&rep, &[(HOPS[(j / (h * h)) as usize], m), (HOPS[((j / h) % h) as usize], 0), (HOPS[(j % h) as usize], 0)], &evals)
         });
     }
+    // lane c: requests issued by the library on the caller's behalf (PagedResults follow-ups):
+    // every follow-up must be the same SearchRequest with the caller's controls and exactly
+    // one paging control (explicit-state search over the real adapter, E1 paging server)
+    let mut scns = vec![];
+    {
+        use crate::e1::types::*;
+        for (n, p, ctrl, opts) in [(4usize, 1i32, true, false), (5, 2, true, true), (3, 1, false, true)] {
+            for chain in [Chain::Paged(p), Chain::EntriesPaged(p)] {
+                let mut s = Scenario::new(&format!("C02/paged-followups/n{}p{}/{:?}", n, p, chain));
+                let mut script = vec![Call::Start { marker: "pg".into(), chain, timeout: None, ctrl, opts, own_paging: false }];
+                for _ in 0..=n {
+                    script.push(Call::Next);
+                }
+                script.push(Call::Finish);
+                s.clients = vec![ClientSpec { script, free: 0 }];
+                s.plans.insert("pg".into(), Plan { total: n, ..Default::default() });
+                s.select_starts = vec![1];
+                s.oracles = Oracles { paged: true, route: true, stream: true, ..Default::default() };
+                scns.push(s);
+            }
+        }
+    }
+    let t = crate::e1::explore_all(&rep, scns, false);
+    evals.fetch_add(t.transitions, Ordering::Relaxed);
     let total = evals.load(Ordering::Relaxed);
     let c = cov(vec![
         ("evaluations", json!(total)),
         ("distinct_nontrivial", json!(total)),
         ("rule", json!("lane a: every request of the per-operation argument products (DNs {\"\", short, 130 B, 300 B, multi-byte}; byte values {empty, 00, ff, 80 7f}; list sizes 0-3; scope x deref x typesOnly x limits {0,1,127,128,255,256,32767,32768,2^31-1}; mod ops x 0-2 values; exop values; abandon IDs) with control lists (0-2 controls x criticality x value {none, empty, bytes}) and message-ID positions rotating, plus every operation kind x every control list x every ID position; the wire bytes are decoded by the independent decoder and compared with a model built from the arguments. lane b: every history of length <= 2 (thorough: 3) over 9 operation kinds x 8 modifier subsets (controls, timeout, search options) on one handle against a reactive server (one operation kind is never answered, so stale or missing timeouts are observable on the virtual clock). Every case is distinct by construction and exercises at least one encoder path")),
         ("lane_a_requests", json!(lane_a)),
-        ("lane_b_histories", json!(total - lane_a)),
+        ("lane_b_histories", json!(total - lane_a - t.transitions)),
+        ("lane_c_paged_followup_states", json!(t.states)),
+        ("lane_c_paged_followup_transitions", json!(t.transitions)),
         ("samples", json!([format!("{:?}", reqs[reqs.len() / 2]), "history [(SearchOk, controls+options), (SilentCompare, none)]"])),
         ("exhaustive", json!(true)),
     ]);
